@@ -26,10 +26,14 @@ func TestC16_BurstAfterIdle(t *testing.T) {
 	in, out := net.Pipe()
 	var mu sync.Mutex
 	var at []time.Time
+	registered := make(chan struct{})
 	go func() {
 		r := bufio.NewReader(in)
 		for {
 			l, err := r.ReadString('\n')
+			if strings.HasPrefix(l, "USER ") {
+				close(registered)
+			}
 			if strings.HasPrefix(l, "PRIVMSG #w ") {
 				mu.Lock()
 				at = append(at, time.Now())
@@ -42,9 +46,10 @@ func TestC16_BurstAfterIdle(t *testing.T) {
 	}()
 	go c.MockConnect(out)
 	defer c.Close()
-	deadline := time.Now().Add(5 * time.Second)
-	for !c.IsConnected() && time.Now().Before(deadline) {
-		time.Sleep(time.Millisecond)
+	select { // the registration lines are on the wire: lastWrite is stamped
+	case <-registered:
+	case <-time.After(20 * time.Second):
+		t.Fatal("no registration within 20s")
 	}
 	var t0 time.Time
 	for i := 0; ; i++ {
@@ -52,6 +57,9 @@ func TestC16_BurstAfterIdle(t *testing.T) {
 		_, since, ok := c.VerifRateState()
 		if !ok || i > 100 {
 			t.Fatal("not connected")
+		}
+		if since > time.Hour {
+			t.Fatal("lastWrite is unset although the registration lines were written")
 		}
 		if since >= 1500*time.Millisecond {
 			t0 = before.Add(-since) // no later than lastWrite
